@@ -23,7 +23,7 @@ type parseCase struct {
 }
 
 // extraProgram, when set (by the program generator), yields a valid program for the family.
-var extraProgram func(r *core.Rand, fam int) []byte
+var extraProgram func(r *core.Rand, fam int, flexOK bool) []byte
 
 var (
 	bodyOKmu sync.Mutex
@@ -75,7 +75,7 @@ func genParseCase(seed int64, label string, idx int, hostileShare int) parseCase
 			return gen.Render(root.Tokens(), []int{gen.LayCanon, gen.LayMinimal, gen.LayLF, gen.LayCRLF, gen.LayComments, gen.LayMixed}[rr.Intn(6)], rr.Split("lay"), nil)
 		}
 		if extraProgram != nil {
-			return extraProgram(rr, fam)
+			return extraProgram(rr, fam, ver == "7.3" || ver == "7.4")
 		}
 		return []byte(cor[rr.Intn(len(cor))].Src)
 	}
